@@ -92,6 +92,12 @@ def cases():
          "conns": [{"src": "Sb", "dst": "Sa", "sa": "p", "da": "i", "weak": True, "init": True},
                    {"src": "Sb", "dst": "Sc", "sa": "p", "da": "i", "shift": 1, "init": True}], "until": 3},
         _tb(["Sa", "Sb", "Sc"]))
+    # D14: two shifted connections from one source simulator with different shifts
+    add("two_shifts_init", ["C03", "C04", "C16"],
+        {"sims": [{"sid": "Sa", "type": "time-based"}, {"sid": "Sb", "type": "time-based"}],
+         "conns": [{"src": "Sb", "dst": "Sa", "sa": "p", "da": "i", "shift": 2, "init": True},
+                   {"src": "Sb", "dst": "Sa", "sa": "p2", "da": "i2", "shift": 3, "init": True}], "until": 5},
+        _tb(["Sa", "Sb"], 7))
     # D9: time-based simulator returning no next step
     add("tb_returns_none", ["C13"],
         {"sims": [{"sid": "Sa", "type": "time-based"}, {"sid": "Sb", "type": "time-based"}],
